@@ -86,7 +86,10 @@ class RenderNode(Node):
             )
         except TemplateNotFoundError as err:
             err.token = self.name.token
-            err.template_name = context.template.full_name()
+            # The name of the template this tag is written in. That is not always
+            # `context.template`, so leave it to the enclosing block, macro or
+            # template, as for any other error.
+            err.template_name = None
             raise
 
         namespace: dict[str, object] = dict(arg.evaluate(context) for arg in self.args)
@@ -148,7 +151,10 @@ class RenderNode(Node):
             )
         except TemplateNotFoundError as err:
             err.token = self.name.token
-            err.template_name = context.template.full_name()
+            # The name of the template this tag is written in. That is not always
+            # `context.template`, so leave it to the enclosing block, macro or
+            # template, as for any other error.
+            err.template_name = None
             raise
 
         namespace: dict[str, object] = dict(
